@@ -234,6 +234,14 @@ def cli_pool_stream(ctx: common.Ctx, rules):
                 for _ in range(rng.randint(1, 4)):
                     j = rng.randrange(1, max(2, len(seq)))
                     seq = seq[:j] + rng.choice(motifs) + seq[j:]
+                # a translation with a stop codon inside / at its end (digested up to the first
+                # stop; the entry leaves the proteome only under --invalid-protein-as-noncoding)
+                k = rng.random()
+                if k < 0.25 and len(seq) > 12:
+                    j = rng.randrange(8, len(seq))
+                    seq = seq[:j] + '*' + seq[j:]
+                elif k < 0.35:
+                    seq = seq + '*'
                 recs.append((rec.description, tx, seq))
             if not recs:
                 continue
@@ -242,6 +250,7 @@ def cli_pool_stream(ctx: common.Ctx, rules):
                     fh.write(f'>{d}\n{seq}\n')
             nfmap = {tx: anno.transcripts[tx].is_cds_start_nf() for _d, tx, _s in recs}
             for spelling in ['auto', 'trypsin_exception', None]:
+                as_noncoding = rng.random() < 0.3
                 enzyme = 'trypsin' if rng.random() < 0.8 else rng.choice(['lysc', 'arg-c'])
                 misc = rng.choice([0, 1, 2])
                 base = dict(cleavage_rule=enzyme, cleavage_exception=spelling, miscleavage=misc,
@@ -249,14 +258,15 @@ def cli_pool_stream(ctx: common.Ctx, rules):
                 exc = spelling
                 if exc == 'auto':
                     exc = 'trypsin_exception' if enzyme == 'trypsin' else None
-                enc = ';'.join(f'{int(bool(nfmap[tx]))}:{seq}' for _d, tx, seq in recs)
+                enc = ';'.join(f'{int(bool(nfmap[tx]))}:{seq}' for _d, tx, seq in recs
+                               if not (as_noncoding and '*' in seq))
                 line = (f'C10\tpool\t{enzyme}\t{exc or "-"}\t{misc}\t{mw_int(500.)}\t7\t25\t{enc}')
 
                 def ns(**kw):
                     a = argparse.Namespace(
                         genome_fasta=case.genome, annotation_gtf=case.gtf,
                         proteome_fasta=case.proteome, gtf_symlink=False, reference_source=None,
-                        invalid_protein_as_noncoding=False, quiet=True, force=False,
+                        invalid_protein_as_noncoding=as_noncoding, quiet=True, force=False,
                         debug_level=1, index_dir=None, **base)
                     for k, v in kw.items():
                         setattr(a, k, v)
@@ -266,8 +276,9 @@ def cli_pool_stream(ctx: common.Ctx, rules):
                 # (1) on the fly
                 with gen_ref.quiet():
                     _a, _b, _c, canon = cli_common.load_references(
-                        args=ns(command='callVariant'), cleavage_params=cp)
-                cases.append((line, ','.join(sorted(canon)), {'path': 'on-the-fly', **base,
+                        args=ns(command='callVariant'), cleavage_params=cp,
+                        invalid_protein_as_noncoding=as_noncoding)   # as cli.call_variant_peptide passes it
+                cases.append((line, ','.join(sorted(canon)), {'path': 'on-the-fly', 'as_noncoding': as_noncoding, **base,
                               'proteins': [s for _d, _t, s in recs]}))
                 # (2) generateIndex, (3) updateIndex with other miscleavage
                 idx = case.dir / f'index_{spelling}'
